@@ -718,6 +718,55 @@ func ChangeLabelIndex(d dvid.Data, v dvid.VersionID, label uint64, delta labels.
 	return putCachedLabelIndex(d, v, idx)
 }
 
+// mergeIndices adds the current indices of the merged labels to the current index of the
+// target label, stores it and deletes the merged ones, holding the shard locks of all of
+// them (taken in ascending order) so that no concurrent index change is lost between the
+// read and the write.
+func (d *Data) mergeIndices(v dvid.VersionID, op labels.MergeOp, mutInfo dvid.MutInfo) (*labels.Index, error) {
+	shardSet := map[uint64]struct{}{op.Target % numIndexShards: {}}
+	for label := range op.Merged {
+		shardSet[label%numIndexShards] = struct{}{}
+	}
+	shards := make([]uint64, 0, len(shardSet))
+	for shard := range shardSet {
+		shards = append(shards, shard)
+	}
+	sort.Slice(shards, func(i, j int) bool { return shards[i] < shards[j] })
+	for _, shard := range shards {
+		indexMu[shard].Lock()
+	}
+	defer func() {
+		for _, shard := range shards {
+			indexMu[shard].Unlock()
+		}
+	}()
+
+	targetIdx, err := getCachedLabelIndex(d, v, op.Target)
+	if err != nil {
+		return nil, fmt.Errorf("error accessing index of merge target label %d: %v", op.Target, err)
+	}
+	if targetIdx == nil {
+		return nil, fmt.Errorf("can't merge into a non-existent label %d", op.Target)
+	}
+	for label := range op.Merged {
+		idx, err := getCachedLabelIndex(d, v, label)
+		if err != nil {
+			return nil, fmt.Errorf("error getting label index for merge label %d: %v", label, err)
+		}
+		if err := targetIdx.Add(idx, mutInfo); err != nil {
+			return nil, err
+		}
+	}
+	targetIdx.Label = op.Target
+	if err := putCachedLabelIndex(d, v, targetIdx); err != nil {
+		return nil, err
+	}
+	for label := range op.Merged {
+		deleteCachedLabelIndex(d, v, label)
+	}
+	return targetIdx, nil
+}
+
 // getMergedIndex gets index data for all labels in a set with possible bounds.
 func (d *Data) getMergedIndex(v dvid.VersionID, mergedIdxs map[uint64]*labels.Index, mutInfo dvid.MutInfo, bounds dvid.Bounds) (*labels.Index, error) {
 	combinedIdx := new(labels.Index)
